@@ -690,12 +690,14 @@ def run_contract(spec, inputs_json, only=None):
             elif rg[0] == 'integers':
                 doms.append([{'kind': 'integers', 'values': [i]} for i in range(rg[1], rg[2])])
         if len(rng.log) != len(doms):
-            raise RuntimeError('possible(): unsupported draw kinds ' + str(rng.log))
+            import pyvc_rt
+            raise pyvc_rt.HarnessLimit('possible(): unsupported draw kinds ' + str(rng.log))
         n = 1
         for d in doms:
             n *= max(len(d), 1)
         if n > 4096:
-            raise RuntimeError('possible(): too many outcomes')
+            import pyvc_rt
+            raise pyvc_rt.HarnessLimit('possible(): too many outcomes')
         rng_name = next(k for k, v in vals.items() if v is rng)
         for script in itertools.product(*doms):
             j2 = dict(inputs_json)
